@@ -308,7 +308,7 @@ def d4_restore(chk: Check, model: CliModel) -> None:
     chk.rule("C17-D4", "yaml-set restore path: the pre-image is copied to a "
              "temporary file before the target is opened for writing; the "
              "handler rewrites the target from it before removing the "
-             "backup, then exits non-zero", floor=3)
+             "backup, then exits non-zero", floor=4)
     fi = fn(prog, SET, "save_to_yaml_file")
     chk.analysed(fi)
     opens = [n for n in walk_local(fi.node) if isinstance(n, ast.Call)
@@ -356,6 +356,35 @@ def d4_restore(chk: Check, model: CliModel) -> None:
         chk.fail("C17-D4", fi, h, "restore handler order",
                  "the handler removes the backup before (or without) "
                  "restoring the target from the saved pre-image")
+    # the failed writer's handle still buffers part of the new document:
+    # while it is open, restoring through a second handle is undone when
+    # the first one is flushed on leaving its `with`
+    wwith = _with_of(w[0])
+    hname = None
+    if isinstance(wwith, ast.With):
+        for item in wwith.items:
+            if item.context_expr is w[0] and item.optional_vars is not None:
+                hname = src(item.optional_vars)
+    if wwith is not None and _inside(wb[0], wwith):
+        closes = [n for s_ in h.body for n in ast.walk(s_)
+                  if isinstance(n, ast.Call) and hname is not None and
+                  src(n.func) == hname + ".close" and
+                  n.lineno < wb[0].lineno and s_ in h.body and
+                  isinstance(s_, ast.Expr)]
+        if closes:
+            chk.ok("C17-D4", fi, closes[0], src(closes[0]),
+                   "the failed writer's handle is closed before the target "
+                   "is rewritten from the pre-image")
+        else:
+            chk.fail("C17-D4", fi, wb[0], "restore while `{}` is open"
+                     .format(hname or "the writer"),
+                     "the restore runs inside the writer's `with` without "
+                     "closing its handle first: the buffered partial "
+                     "document is flushed over the restored content when "
+                     "the `with` is left")
+    else:
+        chk.ok("C17-D4", fi, wb[0], "restore outside the writer's with",
+               "the writer's handle is closed by then")
     last = h.body[-1]
     if model.stmt_never_returns(fi, last) and isinstance(last, ast.Expr) and \
             len(last.value.args) > 1 and \
